@@ -31,6 +31,36 @@ func LoadNormalized(dir string, overlay map[string][]byte, fast bool) (*Prog, er
 	}
 	cur := overlay
 	norm := &Normalized{}
+	// renamed types, functions and fields first: they get their inventory name back
+	for pass := 0; pass < 3; pass++ {
+		again := false
+		read := func(path string) ([]byte, error) {
+			if b, ok := cur[path]; ok {
+				return b, nil
+			}
+			return os.ReadFile(path)
+		}
+		if ov, notes := RenameOverlay(p, read); len(ov) > 0 {
+			next := map[string][]byte{}
+			for k, v := range cur {
+				next[k] = v
+			}
+			for k, v := range ov {
+				next[k] = v
+			}
+			if p2, err := load(next); err == nil {
+				p, cur = p2, next
+				norm.Notes = append(norm.Notes, notes...)
+				norm.Rounds++
+				again = true
+			} else {
+				norm.Notes = append(norm.Notes, "renaming back did not type-check, ignored: "+firstLine(err.Error()))
+			}
+		}
+		if !again {
+			break
+		}
+	}
 	for round := 0; round < 3; round++ {
 		read := func(path string) ([]byte, error) {
 			if b, ok := cur[path]; ok {
